@@ -204,7 +204,11 @@ func (m *KeyModel) After(w *world.World, a *world.Action, r *world.StepResult) *
 				} else if owner == v && m.cur[c][v] == "" {
 					reject = "own provider key without a previous assignment"
 				} else if kv, isCur, o := m.knownOn(c, addr); kv != "" {
-					if isCur {
+					if vanished(kv) {
+						// the holder was removed from staking inside this block (its records are deleted by the hook);
+						// whether that happened before or after this message is not observable
+						grey = true
+					} else if isCur {
 						reject = "key is currently assigned to " + kv
 					} else if o.PruneTs.After(T) {
 						reject = fmt.Sprintf("key was replaced by %s less than an unbonding period ago (until %s)", kv, o.PruneTs.Format(time.RFC3339))
